@@ -8,7 +8,8 @@ results carry `false` under NULL slots, because WHERE and JOIN ON read the raw b
 The NULL-join-key clause is decided under C11-R1. Everything else of C02 is not decided."""
 import re
 
-from tmpl import site, suffix, flows_from, origin_locals, pl_fields
+from tmpl import site, suffix, flows_from, origin_locals, pl_fields, local_defs
+from mir import operand_places
 
 EVAL = "executor::evaluator::Evaluator::<'a>::"
 
@@ -66,6 +67,7 @@ def run(ctx):
     ctx.floor(R2, n, 2, 'insertions into the distinct-value set')
 
     cte_rule(ctx, prog)
+    min_max_rule(ctx, prog)
     run_r4(ctx, prog)   # three-valued logic in WHERE/ON: a NULL predicate must not read as TRUE (same rule as C14-R6)
     R3 = 'C02-R3'
     ctx.rule(R3, 'SUM on the per-value path (hash/sort aggregation): the combinator applied to (state, value) must skip a NULL '
@@ -112,6 +114,51 @@ def run_r4(ctx, prog):
 
 def short(n):
     return re.sub(r'<[^<>]*>', '', n or '?')
+
+
+def min_max_rule(ctx, prog):
+    """C02-R6: MIN / MAX skip NULLs on both sides"""
+    R6 = 'C02-R6'
+    ctx.rule(R6, 'the MIN / MAX combinators of the aggregate state machine (DataValue::min / max) skip NULL whichever side it is on: both '
+                 'operands are tested for NULL before they are compared. (The derived order puts NULL first, so a bare Ord::max happens to '
+                 'be right and is accepted; a bare or half-guarded Ord::min returns NULL as soon as a NULL follows a value)')
+    first_variant = (prog.adts.get('types::value::DataValue') or {}).get('variants', [{}])[0].get('name')
+    for fn in ('min', 'max'):
+        b = prog.body('types::value::DataValue::' + fn)
+        if not ctx.anchor(R6, 'types::value::DataValue::' + fn, b is not None):
+            continue
+        ctx.functions_analysed.add(b.name)
+        tested = set()
+
+        def operands_of(l, proj):
+            out = set()
+            defs = local_defs(b, l)
+            if l in (1, 2):
+                out.add(l)
+            for bb, kind, payload in defs:
+                if kind == 'assign' and payload.get('rv') == 'agg' and payload.get('ops') and proj and re.match(r'^f:\d+$', proj[0]):
+                    k = int(proj[0][2:])
+                    if k < len(payload['ops']) and payload['ops'][k]['k'] != 'const':
+                        out |= {x for x in origin_locals(b, payload['ops'][k]['pl']['l'], depth=4) if x in (1, 2)}
+                elif kind == 'assign':
+                    out |= {x for pl in operand_places(payload) for x in origin_locals(b, pl['l'], depth=4) if x in (1, 2)}
+            return out
+        for bl in b.blocks:
+            t = bl['term']
+            if t['k'] == 'switch' and t.get('adt') == 'types::value::DataValue' and t.get('on'):
+                names = t.get('variants', {})
+                if any(names.get(str(v)) == 'Null' for v, tgt in t['targets']) or t.get('otherwise') is not None:
+                    tested |= operands_of(t['on']['l'], t['on']['p'])
+        for c in b.calls:
+            if (c.fn or '').endswith('DataValue::is_null') and c.args and c.args[0]['k'] != 'const':
+                tested |= {x for x in origin_locals(b, c.args[0]['pl']['l'], depth=4) if x in (1, 2)}
+        bare_max = fn == 'max' and first_variant == 'Null' and any((c.fn or '').endswith('cmp::Ord::max') for c in b.calls)
+        ok = tested >= {1, 2} or (not tested and bare_max)
+        ctx.ob(R6, f'DataValue::{fn}·null-on-both-sides', ok,
+               f'DataValue::{fn}: operands tested for NULL: {sorted(tested)} (1 = self / the running value, 2 = other / the input)'
+               + ('; bare Ord::max with NULL as the least variant' if (not tested and bare_max) else ''), [b.loc],
+               what=f'DataValue::{fn} guards only one operand against NULL: `select min(v) ..` returns NULL (or the minimum of the values '
+                    'after the last NULL) when a NULL follows a non-NULL value in a group')
 
 
 def cte_rule(ctx, prog):
